@@ -65,6 +65,10 @@ SPEC = Spec(
          "balance oracle runs in Lean on the implementation's counters; every returned replayable trace is replayed through C03.fire and "
          "sentOf/failedOf/enqFailedWfrOf of the reached LTS state must equal the meter values; the size/capacity gauges are read at a "
          "quiescent point before Shutdown and compared with a send ledger and with the qsize of the LTS state replayed up to there; "
+         "1/3 of the memory-queue + sending_queue::batch cases (and 2 corpus cases) size queue and batcher in BYTES (min 0/80/300 B, max 0 or "
+         "min+200..499 B: merges and splits by encoded size; a bytes split of metrics is turned into traces), the counters are diffed in items as before. "
+         "For bytes-sized queues the size-gauge comparisons are skipped (the send ledger is kept in requests/items: reading counted not comparable; "
+         "prop gaugelts=skipped); the capacity gauge is still compared. "
          "non-trivial = a failed call and a refused send. "
          "distinct = distinct op sequences (sha1 of the op lines).",
     trusted_base=[
